@@ -59,8 +59,8 @@ static int grid(int k, ZSTD_bounds b, int dflt) {
     }
 }
 enum { NGRID = 10 };
-enum { OP_SET, OP_RESET_SESSION = NGRID, OP_RESET_PARAMS, OP_RESET_BOTH, OP_BEGIN, OP_END, OP_FAILCALL, OP_APPLY_PARAMS, OP_SIMPLE, NOPS };
-static const char* OPNAME[] = {"reset(session)", "reset(parameters)", "reset(both)", "beginFrame", "endFrame", "failingCall", "setParametersUsingCCtxParams", "simpleOneShot"};
+enum { OP_SET, OP_RESET_SESSION = NGRID, OP_RESET_PARAMS, OP_RESET_BOTH, OP_BEGIN, OP_END, OP_FAILCALL, OP_APPLY_PARAMS, OP_SIMPLE, OP_SET_STRUCT, NOPS };
+static const char* OPNAME[] = {"reset(session)", "reset(parameters)", "reset(both)", "beginFrame", "endFrame", "failingCall", "setParametersUsingCCtxParams", "simpleOneShot", "structSetter"};
 
 static int g_defaults[3][64]; static int g_haveDefaults[3];
 
@@ -232,6 +232,37 @@ static void body(void) {
                 }
                 if (ZSTD_isError(r)) break;
                 memcpy(cur, after, sizeof cur); continue;
+            }
+        case OP_SET_STRUCT:
+            /* the struct setters ZSTD_CCtx_setCParams / setFParams / setParams: all-or-none.  The struct is a valid one (level-3 table row, frame flags the
+             * opposite of the current ones, so that a partial update is visible) with the parameter under test, when it is a member, replaced by a grid value */
+            if (o.kind != OBJ_CCTX) break;
+            {   static const int CPID[7] = {ZSTD_c_windowLog, ZSTD_c_hashLog, ZSTD_c_chainLog, ZSTD_c_searchLog, ZSTD_c_minMatch, ZSTD_c_targetLength, ZSTD_c_strategy};
+                static const int FPID[3] = {ZSTD_c_contentSizeFlag, ZSTD_c_checksumFlag, ZSTD_c_dictIDFlag};
+                int ci[7], fi[3], member = -1; for (int k = 0; k < 7; k++) { ci[k] = -1; for (int i = 0; i < NCP; i++) if (CP[i].id == CPID[k]) ci[k] = i; if (P->id == CPID[k]) member = k; }
+                for (int k = 0; k < 3; k++) { fi[k] = -1; for (int i = 0; i < NCP; i++) if (CP[i].id == FPID[k]) fi[k] = i; if (P->id == FPID[k]) member = 7 + k; }
+                int setter = member >= 0 ? vx_choose(3) : 2; static const int GV[4] = {0, 1, 2, 3}; int v = member >= 0 ? grid(GV[vx_choose(4)], b, 0) : 0;
+                ZSTD_parameters zp; zp.cParams = ZSTD_getCParams(3, 0, 0);
+                zp.fParams.contentSizeFlag = !cur[fi[0]]; zp.fParams.checksumFlag = !cur[fi[1]]; zp.fParams.noDictIDFlag = cur[fi[2]] ? 1 : 0;
+                unsigned* cf[7] = {&zp.cParams.windowLog, &zp.cParams.chainLog, &zp.cParams.hashLog, &zp.cParams.searchLog, &zp.cParams.minMatch, &zp.cParams.targetLength, (unsigned*)&zp.cParams.strategy};
+                static const int CFID[7] = {ZSTD_c_windowLog, ZSTD_c_chainLog, ZSTD_c_hashLog, ZSTD_c_searchLog, ZSTD_c_minMatch, ZSTD_c_targetLength, ZSTD_c_strategy};
+                if (member >= 0 && member < 7) { for (int k = 0; k < 7; k++) if (CFID[k] == (int)P->id) *cf[k] = (unsigned)v; }
+                else if (member == 7) zp.fParams.contentSizeFlag = v; else if (member == 8) zp.fParams.checksumFlag = v; else if (member == 9) zp.fParams.noDictIDFlag = !v;
+                ho += snprintf(hist + ho, sizeof hist - ho, "[%s %s=%d] ", setter == 0 ? "setCParams" : setter == 1 ? "setFParams" : "setParams", member >= 0 ? P->name : "-", v);
+                vx_label("CCtx %s: %s", P->name, hist);
+                r = setter == 0 ? ZSTD_CCtx_setCParams(o.c, zp.cParams) : setter == 1 ? ZSTD_CCtx_setFParams(o.c, zp.fParams) : ZSTD_CCtx_setParams(o.c, zp);
+                snapshot(&o, after);
+                if (ZSTD_isError(r)) { if (!same(cur, after, n, &which)) { vx_fail("%s: refused struct setter changed parameter %s (%d -> %d)", P->name, pd(&o, which)->name, cur[which], after[which]); goto done; } }
+                else {
+                    int want[64]; memcpy(want, cur, sizeof want);
+                    if (setter != 1) for (int k = 0; k < 7; k++) for (int i = 0; i < NCP; i++) if (CP[i].id == CFID[k]) want[i] = (int)*cf[k];
+                    if (setter != 0) { want[fi[0]] = zp.fParams.contentSizeFlag != 0; want[fi[1]] = zp.fParams.checksumFlag != 0; want[fi[2]] = !zp.fParams.noDictIDFlag; }
+                    /* a value outside the advertised bounds must not have been accepted as is */
+                    if (member >= 0 && member < 7 && setter != 1 && (v < b.lowerBound || v > b.upperBound)) { vx_fail("%s: struct setter accepted the out-of-range value %d", P->name, v); goto done; }
+                    if (!same(want, after, n, &which)) { vx_fail("%s: after the struct setter parameter %s reads %d, expected %d", P->name, pd(&o, which)->name, after[which], want[which]); goto done; }
+                    vx_nontrivial();
+                }
+                (void)ci; memcpy(cur, after, sizeof cur); continue;
             }
         case OP_SIMPLE:
             if (o.stage != ST_INIT) break;
